@@ -281,7 +281,9 @@ def run(ctx, res):
                 arg = t["args"][1]
                 src = batch_sources(k, arg)
                 inst = "%s|%s@%s" % (b.owner.rsplit("::", 1)[-1], names[0].rsplit("::", 1)[-1], fl(t["sp"]).rsplit(":", 1)[-1])
-                if src and "<literal>" not in src and len(src) == 1 and private_reads(src):
+                if src and "<literal>" not in src and len(src) == 1 and (lambda pc: pc[1] or len(pc[0]) != 1 or not list(pc[0])[0].startswith(CTX_M))(plain_value_origin(fg, k, arg, b.owner)):
+                    res.bad("C01.b", inst, "the chunk size is computed from Context::%s() instead of being that value: writer and reader (or the file and the memory variant of the buffer) disagree on the chunk boundaries" % list(src)[0], where(b, bi))
+                elif src and "<literal>" not in src and len(src) == 1 and private_reads(src):
                     res.bad("C01.b", inst, "the chunk size Context::%s() depends on %s, which is not the same at every party: writer and reader would chunk differently" % (list(src)[0], sorted(private_reads(src))), where(b, bi))
                 elif src and "<literal>" not in src and len(src) == 1:
                     res.ok("C01.b", inst, where(b, bi), "chunk size from Context::%s(), which reads only %s" % (list(src)[0], sorted(methods.get(list(src)[0], ()))))
